@@ -81,6 +81,37 @@ func TestVerifReplaySumDB(t *testing.T) {
 		failed["pre"] = res
 		failed["C19.s"] = res
 	}
+	// a log server that accepts the request and never answers, a client without a timeout of its own (what cmd/feedbastion
+	// passes to every feeder): the cycle must end when its context does
+	release := make(chan struct{})
+	silent := httptest.NewServer(http.HandlerFunc(func(w http.ResponseWriter, r *http.Request) { <-release }))
+	defer silent.Close()
+	defer close(release)
+	// ... and one that serves the checkpoint but never answers a tile request (the proof path)
+	halfSilent := httptest.NewServer(http.HandlerFunc(func(w http.ResponseWriter, r *http.Request) {
+		if r.URL.Path == "/latest" {
+			_, _ = w.Write(mk(5))
+			return
+		}
+		<-release
+	}))
+	defer halfSilent.Close()
+	for _, u := range []string{silent.URL, halfSilent.URL} {
+		w2 := &vrWitness{latest: mk(1)}
+		c2, cancel2 := context.WithTimeout(context.Background(), 300*time.Millisecond)
+		d2 := make(chan error, 1)
+		go func() {
+			d2 <- FeedLog(c2, config.Log{ID: "sumdb", Origin: origin, Verifier: verifier, URL: u}, w2, &http.Client{}, 0)
+		}()
+		select {
+		case <-d2:
+		case <-time.After(3 * time.Second):
+			why := "a silent log server: the sumdb feed cycle is still running 2.7s after its 300ms context ended (its requests ignore the context)"
+			failed["C19.ctx"] = why
+			failed["C13.ctx"] = why
+		}
+		cancel2()
+	}
 	js, _ := json.Marshal(map[string]interface{}{"realisable": true, "to_size": m.ToSize, "from_size": m.FromSize, "outcome": res, "failed_clauses": failed})
 	t.Logf("REPLAY-RESULT %s", js)
 }
